@@ -29,16 +29,14 @@ def option_wrapper(ctx, T, be):
     """How format_special_type renders Option<X>, as a function text(X) -> [texts], read from its Option arm."""
     struct, file = emit.BACKENDS[be]
     f = ctx.fn(f'{struct}::format_special_type', file=file)
-    arm = None
-    for m in f['matches']:
-        for a in m['arms']:
-            if a['variants'] == ['SpecialRustType::Option']:
-                arm = a
-    if arm is None or arm['value'].get('k') == 'big':
-        raise core.Incomplete(f'{be}: Option arm of format_special_type not found')
+    from .. import special
+    vals = special.per_variant(ctx, f, 'SpecialRustType').get('Option', [])
+    if not vals:
+        raise core.Incomplete(f'{be}: result of format_special_type for Option not found')
     asg = {f'{struct}.no_pointer_slice': False}
     R = guards.Renderer(T, asg, type_hook=lambda v: ['\x00'])
-    outs = set(R.render(arm['value']))
+    outs = {o for v in vals for o in R.render(v)}
+    outs = {o for o in outs if '⟨get:' not in o and '⟨Err' not in o}
     pats = []
     for o in outs:
         if o.count('\x00') != 1:
